@@ -1,6 +1,7 @@
 //! seqx — bounded-exhaustive in-process enumerators against s4lib (engine E-SEQ).
 mod c02;
 mod c03;
+mod c04;
 mod c16;
 mod c17;
 mod out;
@@ -31,6 +32,8 @@ fn main() {
             c16::run(&tier)
         }
         "c16-long" => c16::run_long(),
+        "c04-dump" => c04::dump(),
+        "c04-spans" => c04::spans(args.get(2).expect("json file")),
         "c17" => {
             if let Some(r) = replay {
                 let v: serde_json::Value = serde_json::from_str(&std::fs::read_to_string(&r).unwrap()).unwrap();
